@@ -23,7 +23,7 @@ TECHNIQUE = (
     "validity rule, the from-scratch metadata produced by the real daemon without cache, and an independent parse of the entry file"
 )
 RULE = (
-    "state = bytes and mtimes of the ebuild, the eclass copies (master/overlay) and the cache entry file (exact, used for "
+    "state = bytes and mtimes of the two ebuilds, the eclass copies (master/overlay) and the cache entry files (exact, used for "
     "de-duplication). Events: read; edit ebuild; touch ebuild; edit eclass; move eclass between master and overlay; remove "
     "eclass + un-inherit; remove eclass only; strip INHERIT from the entry; corrupt the entry's recorded ebuild checksum; poison a cached value "
     "(thorough adds: touch eclass; shadow the master eclass by a different overlay copy / remove the shadow; corrupt the "
@@ -32,13 +32,14 @@ RULE = (
     "ebuild checksum (md5 backend) / mtime (flat backend) equals the current one and every eclass it records exists in the "
     "stack with the recorded md5 (md5 backend) / directory and mtime (flat backend). A valid entry must be returned as "
     "stored (poison included, which makes use observable); otherwise the result must equal the cacheless regeneration and the "
-    "entry file must afterwards hold exactly that metadata with the current checksums. A class is (backend, last event, used/regenerated)."
+    "entry file must afterwards hold exactly that metadata with the current checksums. A class is (backend, last event, used/regenerated per package)."
 )
 ASSUMPTIONS = [
     "Excl: an otherwise valid entry that records eclasses but lacks INHERIT may be used or regenerated (pkgcore regenerates to upgrade the entry; the statement's first sentence does not mention it) -- both outcomes are accepted and followed",
     "Excl: flat (mtime) backend + content edits that keep the mtime (undetectable by the statement's own criterion)",
     "Excl: after removing an eclass that the ebuild still inherits the read must fail like the cacheless read does (returning the stale entry is a violation); what the failed regeneration leaves in the cache is unspecified, so such states are probed but not extended",
-    "one package inheriting at most one eclass `e`; two stacked repositories; cache backends flat_hash.database and flat_hash.md5_cache only",
+    "two packages with the same inherit line (at most one eclass `e`); ebuild edits and entry corruption/poisoning act on the first package, eclass events concern both; two stacked repositories; cache backends flat_hash.database and flat_hash.md5_cache only",
+    "every read (event, probe, second probe) iterates ONE repository instance and reads the metadata of all packages while the package objects and the mappings they returned stay alive; every package is judged separately",
     "mtimes are whole seconds set explicitly by the harness; no wall-clock time enters the oracle",
     "from-scratch metadata is produced by the real daemon through a cacheless UnconfiguredTree on the same files and memoised by file contents (it depends on nothing else)",
 ]
@@ -68,6 +69,9 @@ def md5hex(text):
 
 
 # ----------------------------------------------------------------------------------------------- the world (real files + model)
+PKGS = ["pkg", "pkg2"]  # same inherit line; edit/corrupt/poison events act on PKGS[0], eclass events concern both
+
+
 class World:
     """real files under self.root plus the harness' own record of what it wrote (the model)."""
 
@@ -78,26 +82,41 @@ class World:
         self.o = os.path.join(root, "o")
         self.clock = 0
         # model of the file system
-        self.eb = {"ver": 0, "inherits": True, "mtime": T0}
+        self.ebs = {p: {"ver": 0, "inherits": True, "mtime": T0} for p in PKGS}
         self.ecl = {"m": {"ver": 0, "mtime": T0}, "o": None}  # copies of e.eclass
         self.next_ecl_ver = 1
-        # model of the cache entry: None or dict(meta, eb_chf, ecl (None | recorded tuple), has_inherit)
-        self.entry = None
+        # model of the cache entries: per package None or dict(meta, eb_chf, ecl (None | recorded tuple), has_inherit)
+        self.entries = {p: None for p in PKGS}
+        self.cur = PKGS[0]  # the package the per-package helpers below talk about
         self.msgs = []
         self.last = "-"
+        self.last_all = "-"
         self.regens = 0
+
+    # ---- per-package views
+    @property
+    def eb(self):
+        return self.ebs[self.cur]
+
+    @property
+    def entry(self):
+        return self.entries[self.cur]
+
+    @entry.setter
+    def entry(self, value):
+        self.entries[self.cur] = value
 
     # ---- paths
     def ebuild_path(self):
-        return os.path.join(self.o, "cat", "pkg", "pkg-1.ebuild")
+        return os.path.join(self.o, "cat", self.cur, f"{self.cur}-1.ebuild")
 
     def eclass_path(self, where):
         return os.path.join(self.m if where == "m" else self.o, "eclass", "e.eclass")
 
     def entry_path(self):
         if self.backend == "md5":
-            return os.path.join(self.o, "metadata", "md5-cache", "cat", "pkg-1")
-        return os.path.join(self.root, "flatcache", "cat", "pkg-1")
+            return os.path.join(self.o, "metadata", "md5-cache", "cat", f"{self.cur}-1")
+        return os.path.join(self.root, "flatcache", "cat", f"{self.cur}-1")
 
     def tick(self):
         self.clock += 1
@@ -122,8 +141,11 @@ class World:
         self.sync_files()
 
     def sync_files(self):
-        """(re)write ebuild and eclass copies from the model"""
-        self._write(self.ebuild_path(), ebuild_text(self.eb["ver"], self.eb["inherits"]), self.eb["mtime"])
+        """(re)write ebuilds and eclass copies from the model"""
+        keep = self.cur
+        for self.cur in PKGS:
+            self._write(self.ebuild_path(), ebuild_text(self.eb["ver"], self.eb["inherits"]), self.eb["mtime"])
+        self.cur = keep
         for where in ("m", "o"):
             p = self.eclass_path(where)
             c = self.ecl[where]
@@ -168,7 +190,7 @@ class World:
 
     def content_key(self):
         where = self.effective_eclass()
-        return (self.eb["ver"], self.eb["inherits"], None if where is None else self.ecl[where]["ver"])
+        return tuple((p, self.ebs[p]["ver"], self.ebs[p]["inherits"]) for p in PKGS) + (None if where is None else self.ecl[where]["ver"],)
 
     # ---- real reads
     def _trees(self, with_cache):
@@ -191,28 +213,38 @@ class World:
             self.o, eclass_cache=stack, masters=(master,), cache=caches, repo_config=repo_objs.RepoConfig(self.o)
         )
 
-    def real_read(self, with_cache):
+    def real_read_all(self, with_cache):
+        """ONE repository instance, plain iteration over its packages, metadata of each read in name order while all
+        package objects (and the metadata mappings they returned) stay alive.
+        -> {package: ("ok", meta, eclasses) | ("error", text)}"""
         tree = self._trees(with_cache)
-        pkg = tree.package_class("cat", "pkg", "1")
-        data = pkg.data
-        meta = {k: v for k, v in data.items() if not k.startswith("_")}
-        ecl = data.get("_eclasses_") or {}
-        eclasses = {name: getattr(v, "path", None) for name, v in dict(ecl).items()}
-        return meta, eclasses
+        alive = sorted(tree, key=lambda pkg: pkg.package)
+        out = {}
+        held = []
+        for pkg in alive:
+            try:
+                data = pkg.data
+                held.append(data)
+                meta = {k: v for k, v in data.items() if not k.startswith("_")}
+                ecl = data.get("_eclasses_") or {}
+                out[pkg.package] = ("ok", meta, {name: getattr(v, "path", None) for name, v in dict(ecl).items()})
+            except Exception as e:  # noqa: BLE001
+                out[pkg.package] = ("error", f"{type(e).__name__}: {str(e)[:160]}")
+        for p in PKGS:
+            out.setdefault(p, ("error", "package not found by iterating the repository"))
+        del held, alive
+        return out
 
     def broken(self):
-        """the ebuild inherits an eclass that exists nowhere: metadata cannot be generated"""
-        return self.eb["inherits"] and self.effective_eclass() is None
+        """an ebuild inherits an eclass that exists nowhere: its metadata cannot be generated"""
+        return any(e["inherits"] for e in self.ebs.values()) and self.effective_eclass() is None
 
     def fresh(self, memo):
-        """("ok", meta, eclasses) or ("error", text): what a cacheless read of the current files gives"""
+        """what a cacheless read of the current files gives, per package"""
         k = self.content_key()
         if k not in memo:
-            self.regens += 1
-            try:
-                memo[k] = ("ok",) + self.real_read(False)
-            except Exception as e:  # noqa: BLE001
-                memo[k] = ("error", f"{type(e).__name__}: {str(e)[:160]}")
+            self.regens += len(PKGS)
+            memo[k] = self.real_read_all(False)
         return copy.deepcopy(memo[k])
 
     # ---- independent reader of the entry file (flat_hash format: KEY=value lines)
@@ -248,30 +280,45 @@ class World:
 
     # ---- the read event with its oracle
     def read(self, memo, probe=False):
-        msgs = []
-        was_valid = self.entry_valid()
-        lacks_inherit = self.entry is not None and self.entry["ecl"] is not None and not self.entry["has_inherit"]
-        stored = copy.deepcopy(self.entry["meta"]) if self.entry else None
+        """all packages through one repository instance; every package judged on its own"""
+        before = {p: (self._valid_of(p), copy.deepcopy(self.entries[p])) for p in PKGS}
         fresh = self.fresh(memo)
+        got = self.real_read_all(True)
+        msgs = []
+        outcomes = []
+        for p in PKGS:
+            self.cur = p
+            m, outcome = self._judge(before[p][0], before[p][1], fresh[p], got[p])
+            msgs += [f"{p}: {x}" for x in m]
+            outcomes.append(outcome)
+        self.cur = PKGS[0]
+        self.msgs = [m.replace(self.root, "<root>") for m in msgs]
+        self.last = outcomes[0]
+        self.last_all = "/".join(outcomes)
+
+    def _valid_of(self, p):
+        keep = self.cur
+        self.cur = p
         try:
-            got_meta, got_ecl = self.real_read(True)
-            got_err = None
-        except Exception as e:  # noqa: BLE001
-            got_err = f"{type(e).__name__}: {str(e)[:200]}"
+            return self.entry_valid()
+        finally:
+            self.cur = keep
+
+    def _judge(self, was_valid, entry_before, fresh, got):
+        msgs = []
+        lacks_inherit = entry_before is not None and entry_before["ecl"] is not None and not entry_before["has_inherit"]
+        stored = entry_before["meta"] if entry_before else None
         if fresh[0] == "error":
             # the recorded eclass is gone and the ebuild still inherits it: like the cacheless read, the read has to fail
-            if got_err is None:
-                how = "the stored (stale) metadata" if got_meta == stored else f"{got_meta}"
+            if got[0] != "error":
+                how = "the stored (stale) metadata" if got[1] == stored else f"{got[1]}"
                 msgs.append(f"inherited eclass no longer exists ({self.why_invalid()}); a cacheless read fails ({fresh[1][:80]}) but the read returned {how}")
-            self.msgs = [m.replace(self.root, "<root>") for m in msgs]
-            self.last = "error"
-            return
-        if got_err is not None:
-            msgs.append(f"read raised {got_err}")
-            self.msgs = msgs
-            self.last = "error"
-            return
-        _ok, fresh_meta, fresh_ecl = fresh
+            return msgs, "error"
+        if got[0] == "error":
+            msgs.append(f"read raised {got[1]}")
+            return msgs, "error"
+        _ok, fresh_meta, _fresh_ecl = fresh
+        _ok, got_meta, got_ecl = got
         if was_valid and not lacks_inherit:
             outcome = "used"
             if got_meta != stored:
@@ -315,8 +362,7 @@ class World:
             msgs.append(f"entry file after the read differs from the expected entry: {_d(on_disk or {}, exp or {})}")
         elif not self.entry_valid():
             msgs.append(f"entry stored by the read does not validate against the files ({self.why_invalid()})")
-        self.msgs = [m.replace(self.root, "<root>") for m in msgs]
-        self.last = outcome
+        return msgs, outcome
 
     def why_invalid(self):
         e = self.entry
@@ -328,10 +374,11 @@ class World:
             return f"recorded eclass {e['ecl']} != current {self.cur_ecl_record()}"
         return "valid"
 
-    # ---- events
+    # ---- events (edit/corrupt/poison act on PKGS[0])
     def enabled(self, events):
         out = []
         eff = self.effective_eclass()
+        self.cur = PKGS[0]
         if self.broken():
             return out  # Excl: what a failed regeneration leaves behind is unspecified -> terminal state (it is still probed)
         for ev in events:
@@ -362,6 +409,8 @@ class World:
     def apply(self, ev, memo):
         self.msgs = []
         self.last = "-"
+        self.last_all = "-"
+        self.cur = PKGS[0]
         if ev == "R":
             self.read(memo)
             return
@@ -389,8 +438,10 @@ class World:
             self.ecl["o"] = None
         elif ev == "Rm":
             self.ecl = {"m": None, "o": None}
-            self.eb["inherits"] = False
-            self.eb["mtime"] = self.tick()
+            t = self.tick()
+            for e in self.ebs.values():
+                e["inherits"] = False
+                e["mtime"] = t
         elif ev == "Rx":
             self.ecl = {"m": None, "o": None}
         elif ev == "Si":
@@ -422,7 +473,7 @@ class World:
                 p = os.path.join(base, n)
                 with open(p, "rb") as f:
                     files[os.path.relpath(p, self.root)] = (f.read(), int(os.stat(p).st_mtime))
-        model = copy.deepcopy({k: getattr(self, k) for k in ("clock", "eb", "ecl", "next_ecl_ver", "entry")})
+        model = copy.deepcopy({k: getattr(self, k) for k in ("clock", "ebs", "ecl", "next_ecl_ver", "entries")})
         return files, model
 
     def restore(self, snap):
@@ -438,14 +489,18 @@ class World:
             os.makedirs(os.path.join(self.root, sub), exist_ok=True)
         for k, v in copy.deepcopy(model).items():
             setattr(self, k, v)
+        self.cur = PKGS[0]
 
     def canon(self):
-        """exact observable state: bytes+mtime of ebuild, eclass copies and entry file (repository boilerplate is constant)"""
+        """exact observable state: bytes+mtime of ebuilds, eclass copies and entry files (repository boilerplate is constant)"""
         files, _ = self.snapshot()
         keep = {}
         for rel, v in files.items():
-            if rel.endswith((".ebuild", ".eclass")) or rel.endswith("cat/pkg-1"):
-                keep[rel] = v if not rel.endswith("cat/pkg-1") else (v[0], 0)  # entry file mtime is wall clock, not state
+            is_entry = "/cat/" in "/" + rel and rel.endswith("-1")
+            if rel.endswith((".ebuild", ".eclass")):
+                keep[rel] = v
+            elif is_entry:
+                keep[rel] = (v[0], 0)  # entry file mtime is wall clock, not state
         return tuple(sorted(keep.items()))
 
 
@@ -488,7 +543,7 @@ class Explorer:
             w.read(self.memo_fresh)  # populating read
             self.reads += 1
             msgs = [f"populating read: {m}" for m in w.msgs]
-            ev_cls = "populate:" + w.last
+            ev_cls = "populate:" + w.last_all
         else:
             parent = self.build(hist[:-1])
             if parent is None or parent["msgs"]:
@@ -503,7 +558,7 @@ class Explorer:
             if hist[-1] == "R":
                 self.reads += 1
             msgs = [f"event {hist[-1]}: {m}" for m in w.msgs]
-            ev_cls = f"{hist[-1]}:{w.last}" if hist[-1] == "R" else None
+            ev_cls = f"{hist[-1]}:{w.last_all}" if hist[-1] == "R" else None
         snap = w.snapshot()
         canon = w.canon()
         enabled = [] if msgs else w.enabled(self.events)
@@ -511,13 +566,13 @@ class Explorer:
         w.read(self.memo_fresh)
         self.reads += 1
         msgs += [f"probe read: {m}" for m in w.msgs]
-        probe_outcome = w.last
+        probe_outcome = w.last_all
         # and once more: whatever the probe stored must now be served from the cache
-        if not w.msgs and w.last != "error":
+        if not w.msgs and "error" not in w.last_all:
             w.read(self.memo_fresh)
             self.reads += 1
-            if w.last != "used" and not w.msgs:
-                w.msgs.append("entry written by the previous read was not used")
+            if set(w.last_all.split("/")) != {"used"} and not w.msgs:
+                w.msgs.append(f"entries written by the previous read were not all used ({w.last_all})")
             msgs += [f"second probe read: {m}" for m in w.msgs]
         cls = f"{self.backend}|after {hist[-1] if hist else 'populate'}|probe {probe_outcome if not msgs else 'VIOL'}"
         self.regens += w.regens
